@@ -28,7 +28,7 @@ DEC_SHAPES = ["int_small", "int_i32", "int_w4", "int_w5", "int_w8", "float", "bi
               "bin2", "bit1", "bit2", "nil", "pid", "port", "ref1", "ref2", "extfun", "tuple0", "tuple1i", "list1", "imp1"]
 EXTRA = {"int_small": "mk_int_small()", "int_i32": "mk_int_i32()", "int_w4": "mk_int_wide::<4>()", "int_w5": "mk_int_wide::<5>()",
          "int_w8": "mk_int_wide::<8>()"}
-UWS = [(r"^terms::|^refetf::|^c01::", 70), (r"^memcmp$|^memcpy$", 24), (r"Atom::new", 16), (r"rposition|try_rfold|try_fold", 12),
+UWS = [(r"^terms::|^refetf::|^c01::|^c03::|^c13::|^c15::|^c10::", 70), (r"^memcmp$|^memcpy$", 24), (r"Atom::new", 16), (r"rposition|try_rfold|try_fold", 12),
        (r"nom::number", 10)]
 CUTS_NOZ = [r"parse_compressed", r"flate2::|miniz_oxide::", r"parse_old_float", r"dec2flt", r"collections::btree", r"BTreeMap"]
 
